@@ -212,9 +212,16 @@ def _mutates_param(ctx, fi, idx, seen=None):
 
 
 def _fixpoint(ctx):
+    fixpoint_loops(ctx, None, 6)
+    _fixpoint_tokens(ctx)
+
+
+def fixpoint_loops(ctx, only_module, floor):
     loops = []
     for fi in ctx.repo.funcs.values():
         if fi.module.name.startswith('pytrs.interface_tools'):
+            continue
+        if only_module and not fi.module.name.endswith(only_module):
             continue
         for n in walk_local(fi.node):
             if isinstance(n, ast.While) and isinstance(n.test, ast.Compare) \
@@ -222,7 +229,7 @@ def _fixpoint(ctx):
                     and isinstance(n.test.left, ast.Name) \
                     and isinstance(n.test.comparators[0], ast.Name):
                 loops.append((fi, n))
-    ctx.floor('substitute-until-stable loops', len(loops), 6)
+    ctx.floor('substitute-until-stable loops', len(loops), floor)
     for fi, loop in loops:
         a, b = loop.test.left.id, loop.test.comparators[0].id
         construct = f"{fi.qualname}: while {a} != {b}"
@@ -300,6 +307,9 @@ def _fixpoint(ctx):
             ctx.ok('FIXPOINT', construct,
                    f"snapshot `{norm(snap_stmt)}`; subject re-derived each pass")
 
+
+
+def _fixpoint_tokens(ctx):
     # constant replacements are fixed points of their own regex
     defs = ctx.fold.get('tract_preprocess', 'QQ_SCRUBBER_DEFINITIONS')
     if not isinstance(defs, dict) or not defs:
